@@ -25,9 +25,20 @@ def run_property(prop, tier, seed, make_cases, bounds, assumptions, confirm=None
     for p in profiles:
         for c in make_cases(tier, p):
             c = dict(c); c['profile'] = p
-            cases.append(c)
+            split = c.pop('split', None)
+            if split:
+                # partition the world on these variables: sub-cases run in parallel, together they cover every value
+                import itertools
+                for vals in itertools.product([False, True], repeat=len(split)):
+                    d = dict(c); d['partial'] = dict(zip(split, vals))
+                    d['name'] = c.get('name', str(c.get('line'))) + ' [' + ''.join('1' if v else '0' for v in vals) + ']'
+                    cases.append(d)
+            else:
+                cases.append(c)
+    run.cases_by_name = {c.get('name', str(c.get('line'))): c for c in cases}
     run.bounds = dict(bounds)
     run.bounds.update(cases=len(cases), solver_timeout_ms=BUDGET['solver_ms'], step_budget_per_path=BUDGET['steps'], profiles=list(profiles))
+    cases.sort(key=lambda c: -len(str(c.get('line'))))
     res = run_cases(_case, cases)
     cands = []
     percase = []
